@@ -88,6 +88,36 @@ def h_hist(L, s, ops):
     return body
 
 
+def h_long(L, ops, W=6):
+    """long plaintexts (every byte of the 32-bit size field can be non-zero): the first W bytes symbolic, concrete filler behind;
+    seeks and reads inside the first W+2 bytes — the region in which the initial nonce, the size field and the first encoded words
+    meet"""
+    def body(ctx):
+        head = sym_bytes("plain_head", W)
+        plain = SymBytes(head.cells + [(i * 11 + 5) & 0xFF for i in range(12)])  # (the first W+12 of the L plaintext bytes)
+        nonce = sym_bytes("nonce", 4)
+        raw = ModelBytesIO(encode(plain, nonce, SymBytes([0x90, 0x90, 0x90]), list(L.to_bytes(4, "little"))))
+        # (the encoded stage is cut behind the first W+12 plaintext bytes: nothing below reads further; the size field says L)
+        xf = call(xordecode.XorEncodedFile, raw, nonce_offset=3)
+        pos = 0
+        for k, op in enumerate(ops):
+            tag = "long plaintext (%d bytes) history %s step %d" % (L, "/".join(ops), k)
+            if op == "read":
+                n = concretize(sym_int("n%d" % k, 0, W + 2 - pos))
+                got = as_bytes(call(I.getattr(xf, "read"), n))
+                exp = SymBytes(plain.cells[pos:pos + n])
+                ctx.prove(len(got.cells) == len(exp.cells) and got.eq(exp), "%s: read(%d) at %d returns the plaintext slice" % (tag, n, pos))
+                pos += n
+            else:
+                o = concretize(sym_int("o%d" % k, 0, W))
+                r = call(I.getattr(xf, "seek"), o)
+                ctx.prove(compare("==", r, o), "%s: seek(%d) returns %d (got %r)" % (tag, o, o, r))
+                pos = o
+            t = call(I.getattr(xf, "tell"))
+            ctx.prove(compare("==", t, pos), "%s: tell() == %d (got %r)" % (tag, pos, t))
+    return body
+
+
 # --------------------------------------------------------------------------------------------------------- detection
 def scaffold(machine_cells, lfanew=64, extra=0, fill=0x11):
     """minimal image accepted by the documented MZ test: 64-byte DOS header with e_lfanew, PE signature, file header"""
@@ -224,6 +254,9 @@ def instances(tier):
                                 dict(kind="detect", stub=stublen, marker=marker, size_ok=good, machine=mach, cost=10 ** 6),
                                 split=6, max_loop=3000))
     # crafted stray candidates after the true offset (they fail the MZ validation and must be skipped, not end the search)
+    for L in ((0x01020304,) if q else (258, 0x010203, 0x01020304)):
+        for ops in (("seek", "read"), ("read", "read")) if q else (("seek", "read"), ("read", "read"), ("seek", "read", "read"), ("read", "seek", "read")):
+            out.append(Instance("long plaintext L=%d ops=%s" % (L, "/".join(ops)), h_long(L, ops), dict(kind="long_plaintext", L=L, ops=list(ops), window=6, cost=200), split=6, max_loop=3000))
     for stl, st in (((12, 2),) if q else ((12, 2), (9, 1), (41, 5))):
         out.append(Instance("detect stub=%d marker+size, stray marker at %d" % (stl, st), h_detect(stl, True, True, "x64", stray=st),
                             dict(kind="detect_stray_before", stub=stl, stray_marker_at=st, cost=10 ** 6), split=6, max_loop=3000))
